@@ -301,7 +301,15 @@ def runRec (j : Json) : Except String Json := do
 Ops: `iter{rev,g}`, `next{k}` (`out`, `r`), `edit{g,e}` (`r`, `L`), `seta{v,k,a}`, `dela{v,k}` (`r`),
 `drain{k}` (`out`, `r`, and `spec` = `tStackSpec` evaluated before draining, `sync` = every frame's
 dict iterator is in step).  Every answer carries `acyc` (no graph nested in itself, both
-directions), `ok` (cursor validity of every frame of every iterator) and `inv`. -/
+directions), `ok` (cursor validity of every frame of every iterator) and `inv`.
+`next` / `drain` also carry `ref`: the statement of C11_trav_refines_rec_next / _drain evaluated (null
+when a dict iterator is out of step).  `meth{v,m,k,a,kvs,dflt}` calls a public method of
+`node.attributes` (`AMeth`): `r`, `keys` (the keys of the dict afterwards, in order), `eff` (the
+statement of C11_trav_meth_reduces: documented effect).  `spec{rev,g}`: a fresh iterator drained
+(`out`, `r`), `tree` = `treeShape`, `nodup` / `nest` = conclusion of C11_trav_nodup, `same` = the
+coarse model's drain and `specTop` agree.  `untouched{k,X}`: hypotheses (`adm`, `tree0`) and
+conclusions (`concl`, `nodupX`) of C11_trav_untouched_once / C11_trav_never_twice for iterator `k`
+over all events since its creation, and `Y` = the nodes it yielded according to `tRunY`. -/
 
 def parseAVal (j : Json) : Except String AVal :=
   match j.getObjValAs? Nat "g" with
@@ -314,6 +322,67 @@ def parseAVal (j : Json) : Except String AVal :=
 structure TravSt where
   w : TWorld
   its : Array (Dir × List TFrame)
+  /-- per iterator: the world and the root when it was created, and every event since (`next` of
+      this iterator, edits of node sequences, primitive attribute writes) -/
+  hist : Array (TWorld × Nat × Array TEv) := #[]
+
+def TravSt.record (st : TravSt) (evs : List TEv) : TravSt :=
+  { st with hist := st.hist.map fun (w0, g, es) => (w0, g, es ++ evs.toArray) }
+
+def avalJ : AVal → Json
+  | .graph h => obj [("g", toJson h)]
+  | .graphs hs => obj [("gs", natsJ hs)]
+  | .other => obj [("x", toJson (0 : Nat))]
+
+/-- the dict of node `v` as an insertion-ordered mapping: `[[key, value], ..]` -/
+def keysJ (w : TWorld) (v : Nat) : Json :=
+  Json.arr ((w.dictOf v).live.map fun e => Json.arr #[toJson e.1, avalJ e.2]).toArray
+
+def parseAValOpt (j : Json) : Option AVal :=
+  if j.isNull then none else
+  match j.getObjValAs? Nat "g" with
+  | .ok h => some (.graph h)
+  | .error _ =>
+    match getNats j "gs" with
+    | .ok hs => some (.graphs hs)
+    | .error _ => some .other
+
+def parseMeth (j : Json) : Except String AMeth := do
+  let m ← getStr j "m"
+  let k := (j.getObjValAs? Nat "k").toOption.getD 0
+  let a : Option AVal := match j.getObjVal? "a" with
+    | .ok aj => parseAValOpt aj
+    | .error _ => none
+  match m with
+  | "setitem" => return .setitem k a
+  | "add" =>
+    match a with
+    | some x => return .add k x
+    | none => throw "add needs an Attr"
+  | "update" =>
+    let items ← getArr j "kvs"
+    let mut kvs : List (Nat × Option AVal) := []
+    for it in items do
+      let kv : Array Json ← fromJson? it
+      match kv[0]?, kv[1]? with
+      | some kj, some aj =>
+        let kk : Nat ← fromJson? kj
+        kvs := kvs ++ [(kk, parseAValOpt aj)]
+      | _, _ => throw "bad kvs item"
+    return .update kvs
+  | "delitem" => return .delitem k
+  | "pop" => return .pop k ((j.getObjValAs? Bool "dflt").toOption.getD false)
+  | "popitem" => return .popitem
+  | "clear" => return .clear
+  | "setdefault" => return .setdefault k a
+  | _ => throw s!"unknown method {m}"
+
+/-- the graphs reachable from `g` through the current nesting (bounded exploration) -/
+def reachG (w : TWorld) (d : Dir) (g : Nat) : List Nat :=
+  (List.range (w.sets.length + 1)).foldl (fun acc _ =>
+    (acc.flatMap (w.kids d)).foldl (fun a h => if a.contains h then a else a ++ [h]) acc) [g]
+
+def sortNats (l : List Nat) : List Nat := (l.toArray.qsort (· < ·)).toList
 
 def travFlags (st : TravSt) : List (String × Json) :=
   [("acyc", Json.bool (st.w.acyclic .fwd && st.w.acyclic .rev)),
@@ -340,13 +409,21 @@ def travOp (fuel : Nat) (st : TravSt) (j : Json) : Except String (TravSt × List
     let rev ← getBool j "rev"
     let d := if rev then Dir.rev else Dir.fwd
     let g := (j.getObjValAs? Nat "g").toOption.getD 0
-    return ({ st with its := st.its.push (d, tStart g) }, [("r", toJson st.its.size)])
+    return ({ st with its := st.its.push (d, tStart g), hist := st.hist.push (st.w, g, #[]) },
+      [("r", toJson st.its.size)])
   | "next" =>
     let k ← getNat j "k"
     match st.its[k]? with
     | some (d, stack) =>
       let r := tNext st.w d fuel stack
-      return ({ st with its := st.its.setIfInBounds k (d, r.1) }, [("out", outsJ r.2.1), ("r", resJ r.2.2)])
+      -- C11_trav_refines_rec_next, evaluated
+      let ref : Json := if stack.all (fun fr => fr.synced st.w) && r.2.2 != .fuel then
+          Json.bool (decide (recNext st.w.toR d fuel (stack.map (TFrame.toR st.w d)) =
+            (r.1.map (TFrame.toR st.w d), r.2.1, r.2.2)))
+        else Json.null
+      let hist := st.hist.modify k fun (w0, g, es) => (w0, g, es.push .next)
+      return ({ st with its := st.its.setIfInBounds k (d, r.1), hist := hist },
+        [("out", outsJ r.2.1), ("r", resJ r.2.2), ("ref", ref)])
     | none => throw "bad iterator"
   | "drain" =>
     let k ← getNat j "k"
@@ -354,28 +431,76 @@ def travOp (fuel : Nat) (st : TravSt) (j : Json) : Except String (TravSt × List
     | some (d, stack) =>
       let r := tDrain st.w d fuel stack
       let sp := tStackSpec (tVisit st.w d (st.w.sets.length + 1)) st.w d stack
-      return ({ st with its := st.its.setIfInBounds k (d, []) },
-        [("out", outsJ r.1), ("r", resJ r.2), ("spec", outsJ sp),
+      let ref : Json := if stack.all (fun fr => fr.synced st.w) && r.2 != .fuel then
+          Json.bool (decide (recDrain st.w.toR d fuel (stack.map (TFrame.toR st.w d)) = r))
+        else Json.null
+      -- as a history: one `next()` per yielded node and the final one
+      let nexts : Array TEv := (List.replicate ((yieldsOf r.1).length + 1) TEv.next).toArray
+      let hist := st.hist.modify k fun (w0, g, es) => (w0, g, es ++ nexts)
+      return ({ st with its := st.its.setIfInBounds k (d, []), hist := hist },
+        [("out", outsJ r.1), ("r", resJ r.2), ("spec", outsJ sp), ("ref", ref),
          ("sync", Json.bool (stack.all fun fr => fr.synced st.w))])
     | none => throw "bad iterator"
+  | "spec" =>
+    let rev ← getBool j "rev"
+    let g := (j.getObjValAs? Nat "g").toOption.getD 0
+    let d := if rev then Dir.rev else Dir.fwd
+    let r := tDrain st.w d fuel (tStart g)
+    let ys := yieldsOf r.1
+    let nest := sortNats ((reachG st.w d g).flatMap fun h => toList (st.w.setOf h))
+    let k := st.w.sets.length + 1
+    let rr := recDrain st.w.toR d fuel (recStart g)
+    return (st, [("out", outsJ r.1), ("r", resJ r.2), ("tree", Json.bool (st.w.treeShape d g)),
+      ("nodup", Json.bool (decide ys.Nodup)), ("nest", natsJ nest),
+      ("isnest", Json.bool (sortNats ys == nest)),
+      ("same", Json.bool (decide (rr = r) && decide (specTop st.w.toR d k g =
+          Out.enter g :: tLoop (tVisit st.w d k) st.w d g (rest (st.w.setOf g) d .notStarted)) &&
+        (st.w.toR.acyclic d == st.w.acyclic d)))])
+  | "untouched" =>
+    let k ← getNat j "k"
+    let X ← getNats j "X"
+    match st.its[k]?, st.hist[k]? with
+    | some (d, _), some (w0, g, es) =>
+      let evs := es.toList
+      let adm := tAdm X d fuel w0 (tStart g) evs
+      let r := tRunY d fuel w0 (tStart g) evs
+      let concl := untouched X (r.2.2 ++ r.1.fut d r.2.1) == untouched X (w0.fut d (tStart g))
+      return (st, [("adm", Json.bool adm), ("tree0", Json.bool (w0.treeShape d g)),
+        ("concl", Json.bool (!adm || concl)),
+        ("nodupX", Json.bool (decide (untouched X r.2.2).Nodup)), ("Y", natsJ r.2.2),
+        ("closed0", Json.bool (w0.closedB d X))])
+    | _, _ => throw "bad iterator"
+  | "meth" =>
+    let v ← getNat j "v"
+    let m ← parseMeth j
+    let before := (st.w.dictOf v).live
+    let r := st.w.applyMeth v m
+    let evs := (m.prims (st.w.dictOf v)).1.map (APrim.toEv v)
+    let after := (r.1.dictOf v).live
+    let eff := decide ((after, r.2) = m.effect before)
+    return ({ (st.record evs) with w := r.1 },
+      [("r", Json.bool r.2), ("keys", keysJ r.1 v), ("eff", Json.bool eff), ("nprims", toJson evs.length)] ++
+        finishedJ st r.1 v)
   | "edit" =>
     let g ← getNat j "g"
     let e ← j.getObjVal? "e"
     let op ← parseOp e
     let r := st.w.applyAt g op
-    return ({ st with w := r.1 },
+    return ({ (st.record [.edit g op]) with w := r.1 },
       [("r", Json.bool r.2), ("L", Json.arr (r.1.sets.map (fun s => natsJ (toList s))).toArray)])
   | "seta" =>
     let v ← getNat j "v"
     let k ← getNat j "k"
     let a ← parseAVal (← j.getObjVal? "a")
     let w' := st.w.setAttr v k a
-    return ({ st with w := w' }, [("r", Json.bool true)] ++ finishedJ st w' v)
+    return ({ (st.record [.setAttr v k a]) with w := w' },
+      [("r", Json.bool true), ("keys", keysJ w' v)] ++ finishedJ st w' v)
   | "dela" =>
     let v ← getNat j "v"
     let k ← getNat j "k"
     let r := st.w.delAttr v k
-    return ({ st with w := r.1 }, [("r", Json.bool r.2)] ++ finishedJ st r.1 v)
+    return ({ (st.record [.delAttr v k]) with w := r.1 },
+      [("r", Json.bool r.2), ("keys", keysJ r.1 v)] ++ finishedJ st r.1 v)
   | _ => throw s!"unknown op {o}"
 
 def runTrav (j : Json) : Except String Json := do
